@@ -342,7 +342,7 @@ async def _run(case: dict) -> dict:
         executor = StreamFlowExecutor(workflow)
         t0 = time.time()
         try:
-            await asyncio.wait_for(executor.run(), case.get("timeout", 90))
+            await asyncio.wait_for(executor.run(), case.get("timeout", 600))
             res["outcome"] = "ok"
         except asyncio.TimeoutError:
             res["outcome"] = "hang"
@@ -411,7 +411,7 @@ def run_case(case: dict) -> dict:
     try:
         if case.get("lseed") is not None:
             from sfv.rt.loop import run_controlled
-            return run_controlled(lambda: _run(case), case["lseed"], timeout=case.get("timeout", 90) + 60)
+            return run_controlled(lambda: _run(case), case["lseed"], timeout=case.get("timeout", 600) + 60)
         return asyncio.run(_run(case))
     finally:
         shutil.rmtree(root, ignore_errors=True)
